@@ -639,6 +639,28 @@ EVALFLEX_C16 = ["EvalFlex." + n for n in [
     "flex_CallsAtMost", "flex_CallsAtMost_fine", "flex_calls_tight", "leaf_calls_le_pow_block_flex_leaf_trees",
     "algsFanF_callsAtMost", "FanNoGrid_agree"]]
 
+# the grid algorithm as a whole program (Model/Grid*.lean, Model/GridEval.lean): the evaluator-level hypotheses discharged
+# for grid; with block and flexbox discharged too, the C05/C16 evaluator theorems hold for ALL style trees, the C01/C17 ones
+# for all trees whose grid containers cannot panic (EvalGrid.GridCalm)
+EVALGRID_MODULES = ["TaffyVerif.Props.EvalGrid"]
+EVALGRID_C05 = ["EvalGrid." + n for n in [
+    "grid_PHZ", "grid_HiddenBlind", "algs_PHZ_all", "algs_HiddenBlind_all",
+    "hidden_zero_all_trees", "hidden_zero_pass_all_trees", "hidden_invisible_all_trees",
+    "hidden_invisible_pass_all_trees", "hidden_invisible_replace_all_trees",
+    "computeGridLayoutE_cases", "gridSetupK_cases", "placeGridItems_indices", "POp_trackSizingAlgorithmM",
+    "K_gridMain", "K_gridStep7", "GLays_gridTail", "PHZ_computeGridLayout", "computeGridLayout_agree"]]
+EVALGRID_C01 = ["EvalGrid." + n for n in [
+    "grid_PLCovers_partial", "not_grid_PLCovers", "gridCov_PLCovers", "algsCovG_PLCovers",
+    "single_pass_layouts_quiet_all_trees", "history_layouts_quiet_all_trees",
+    "grid_noPanic_of_gridSafeB", "grid_PLCovers_of_gridSafeB", "gridCalm_of_gridCalmB", "exG_calm", "exG_quiet",
+    "GTrack_computeGridLayoutE", "grid_covers_of_noPanic", "GridCalm_agree", "GridCalmHist_agree", "NoGrid_GridCalm",
+    "GSafe_trackSizingAlgorithmM", "noPanic_computeGridLayoutE", "gridSafeB_sound", "gridCalmB_sound",
+    "mergeSort_eq_msort", "gridAlg_eq_gridAlgK"]]
+EVALGRID_C16 = ["EvalGrid." + n for n in [
+    "grid_CallsAtMost", "grid_CallsAtMost_fine", "grid_calls_tight", "nItemsG_add_nHidAbsG", "leaf_calls_le_pow_all_trees",
+    "algsFanG_callsAtMost", "Fan_agree", "GCalls_computeGridLayoutE", "LOp_batchLoopM", "GMeas_minContentChanged",
+    "GMeas_step7Mid"]]
+
 # flexbox as a whole program (Model/Flex.lean): the evaluator-level hypotheses discharged for flex
 EVALFLEX_C06_MODULES = ["TaffyVerif.Props.EvalFlexAbs"]
 EVALFLEX_C06 = ["EvalFlexAbs." + n for n in [
@@ -678,7 +700,7 @@ _PAIRS_TRUSTED = [
 ]
 
 PROPS["C01"] = {
-    "modules": C01_EVAL_MODULES + EVALBLOCK_MODULES + EVALFLEX_MODULES + ["TaffyVerif.Props.C15", "TaffyVerif.Props.C15Pass"], "theorems": C01_EVAL_THEOREMS + EVALBLOCK_C01 + EVALFLEX_C01 + ["C15.step_preserves_K", "C15.I_reachable", "C15Pass.pass_cleans"],  # PLACEHOLDER — C01's theorems (stamp_valid, transparency under HitAfterQuiet, …) to be added
+    "modules": C01_EVAL_MODULES + EVALBLOCK_MODULES + EVALFLEX_MODULES + EVALGRID_MODULES + ["TaffyVerif.Props.C15", "TaffyVerif.Props.C15Pass"], "theorems": C01_EVAL_THEOREMS + EVALBLOCK_C01 + EVALFLEX_C01 + EVALGRID_C01 + ["C15.step_preserves_K", "C15.I_reachable", "C15Pass.pass_cleans"],  # PLACEHOLDER — C01's theorems (stamp_valid, transparency under HitAfterQuiet, …) to be added
     "harness": "C01", "driver": "C01", "monitor": False, "extra_ties": [("EVAL", "EVAL"), ("FLEX", "FLEX"), ("GRID", "GRID")], "extra_tie_cases": 4000, "harness_timeout": 900,
     "rule": "random histories (5-25 ops) on ONE long-lived TaffyTree<Ctx> next to a mirror description: set_style (fresh / identical / "
             "display:none toggle), set_node_context, add_child / insert_child_at_index / replace_child_at_index with a newly generated or a "
@@ -703,13 +725,13 @@ PROPS["C01"] = {
                     "histories respect the precondition: ids live, attach only detached nodes (or via set_children), no cycles, in-range ranges"],
     "undischarged": ["all of C01's theorems (to be added by the coordinator); real-mode equality on the three container algorithms is sampled"],
     "level_text": "Theorems over the tree-level evaluator (Model/Eval.lean, every dispatch, every algorithm bundle): the OUTPUT of a node is a pure function of its subtree and input (outFresh); an exact (full-input) memo whose entries agree with outFresh returns outFresh and stays valid (outputs_transparent_exact); edits that replace a subtree and clear the memos on the path to the root — what the mutators plus mark_dirty achieve, by C15's invariant — preserve validity, so after ANY history of edits and passes the output for the root equals the output of a cache-free pass over a freshly built tree (history_independent_outputs_exact). For the stored LAYOUTS the statement is false in general: layouts_not_transparent_witness is a machine-checked counterexample in which every program has the shape '(ComputeSize)* then PerformLayout per child' (a ComputeSize evaluation rewrites descendants between a PerformLayout store and a later hit), and the same scenario was then reproduced on the real code (known finding c01-stale-layout-after-compute-size). Under the trace condition QuietRun (no body evaluation of a node between a PerformLayout store and a hit on it) and PLCovers, layouts after any quiet history equal those of a fresh cache-free pass; PLCovers is proved for the block model, so on trees of block containers and leaves the theorem needs QuietRun only. On the real code: random histories of every mutator interleaved with passes on any root are compared with a freshly built tree, in four cache modes (real, real+quiet hits, exact keys, exact+quiet), every discrepancy is attributed by the mode that removes it, and a cache-conformance oracle checks every hit of the real trace against cache.rs' rule.",
-    "level_note": 'partial: equality of stored layouts under the real nine-slot cache is NOT a theorem (it is false: known findings lossy key, stale layouts after a ComputeSize evaluation, attach under a clean hidden node); with exact keys it is proved under QuietRun/PLCovers, which hold for block and are hypotheses for flex/grid. Axioms: propext, Classical.choice, Quot.sound.',
+    "level_note": 'partial: equality of stored layouts under the real nine-slot cache is NOT a theorem (it is false: known findings lossy key, stale layouts after a ComputeSize evaluation, attach under a clean hidden node); with exact keys it is proved under QuietRun/PLCovers; PLCovers is PROVED for block (EvalBlock.block_PLCovers), flexbox (EvalFlex.flex_PLCovers) and — for every run that does not panic — grid (EvalGrid.grid_PLCovers_partial; Model/Grid.lean, tied by the GRID correspondence). AlgPLCovers for grid AS STATED is false of the model (EvalGrid.not_grid_PLCovers: a child with grid-column 32767 / span 2 overflows i16 in the size estimate — a panic of the implementation in a debug build, replayed — and a panicking run lays out nothing), so the layout theorems hold for ALL style trees whose grid containers cannot panic (EvalGrid.GridCalm; single_pass_layouts_quiet_all_trees, history_layouts_quiet_all_trees), under the trace condition QuietRun only; GridCalm follows from an executable check (EvalGrid.gridCalmB: no auto-fill/auto-fit repetition, the setup does not panic, item track indexes and the lines of absolutely positioned children inside the track vectors; EvalGrid.gridSafeB_sound proves that then NO run panics, for every input and all child answers). Axioms: propext, Classical.choice, Quot.sound.',
     "technique": 'Lean 4 refinement proof (exact memo vs cache-free evaluator, edits, histories) + counterexample + differential histories against fresh trees in four cache modes',
-    "undischarged": ['PLCovers for the grid program (proved for block: EvalBlock.block_PLCovers, and flexbox: EvalFlex.flex_PLCovers; unconditional on NoGrid trees); QuietRun is a trace condition (monitored on the implementation through the quiet-hit cache mode)', 'real-cache layout transparency: false (three known findings)'],
+    "undischarged": ['PLCovers is discharged for block, flexbox and the non-panicking runs of grid (EvalGrid.grid_PLCovers_partial); what remains for grid is the absence of panics (EvalGrid.GridCalm is a hypothesis on the tree: no grid container outside display:none subtrees can panic; it is implied by the executable check EvalGrid.gridCalmB, which excludes auto-fill/auto-fit templates and containers whose setup overflows); QuietRun is a trace condition (monitored on the implementation through the quiet-hit cache mode)', 'real-cache layout transparency: false (three known findings)'],
 }
 
 PROPS["C16"] = {
-    "modules": C16_EVAL_MODULES + EVALBLOCK_MODULES + EVALFLEX_MODULES, "theorems": C16_EVAL_THEOREMS + EVALBLOCK_C16 + EVALFLEX_C16,  # PLACEHOLDER — C16's theorems (body_evals_le_distinct_keys, queries_per_invocation, chain_const) to be added
+    "modules": C16_EVAL_MODULES + EVALBLOCK_MODULES + EVALFLEX_MODULES + EVALGRID_MODULES, "theorems": C16_EVAL_THEOREMS + EVALBLOCK_C16 + EVALFLEX_C16 + EVALGRID_C16,  # PLACEHOLDER — C16's theorems (body_evals_le_distinct_keys, queries_per_invocation, chain_const) to be added
     "harness": "C16", "driver": "C16", "monitor": False, "harness_timeout": 900, "extra_ties": [("EVAL", "EVAL"), ("FLEX", "FLEX"), ("GRID", "GRID")], "extra_tie_cases": 4000,
     "rule": "fresh trees, one compute_layout pass each: (i) 3000 random mixes (all displays, hidden/absolute nodes, Fixed and Wrap leaves) with "
             "up to 40/150/300 nodes, depth up to 12, up to 10 children; (ii) single-child chain families (same level styles cycled, depth "
@@ -726,14 +748,14 @@ PROPS["C16"] = {
     ],
     "assumptions": ["the measure function is pure; cost is counted in calls, not in time"],
     "undischarged": ["all of C16's theorems; the global 64 x N bound is not a planned theorem (DESIGN.md §8 C16)"],
-    "level_text": "Theorems over the tree-level evaluator with a logging cache: logging changes nothing; exactly one store per body evaluation; with the exact memo the keys stored since the last clear are pairwise distinct, so a node's body is evaluated at most once per distinct query between invalidations; if every container program makes at most q child calls per run, a node at depth k is evaluated at most q^k times from a fresh state under ANY cache (tight without a cache); if all call inputs of all programs come from a fixed list Ks, every non-root node is evaluated at most |Ks| times whatever the depth (chain_const). For the block model: at most 2·n calls for n children; its call inputs do depend on its own input (so chain_const's hypothesis fails for block — consistent with the measured growth). The property's global bound 64 × nodes and its chain clause are NOT theorems: on the real code the random mixes stay far below the bound (max 27.9 calls per node) but single-child chains violate both clauses (known findings: linear growth 4d+1 for a flex-row chain with a wrapping leaf; exponential growth for block/flex-column/grid cycles).",
+    "level_text": "Theorems over the tree-level evaluator with a logging cache: logging changes nothing; exactly one store per body evaluation; with the exact memo the keys stored since the last clear are pairwise distinct, so a node's body is evaluated at most once per distinct query between invalidations; if every container program makes at most q child calls per run, a node at depth k is evaluated at most q^k times from a fresh state under ANY cache (tight without a cache); if all call inputs of all programs come from a fixed list Ks, every non-root node is evaluated at most |Ks| times whatever the depth (chain_const). For the block model: at most 2·n calls for n children, for flexbox 6·n (tight), for grid 11·n (EvalGrid.grid_CallsAtMost, tight: EvalGrid.grid_calls_tight; 11 per grid item: both axes × (min-content, max-content) × (first run, step-7 re-run) + 2 baseline queries + the final layout; constant per child — independent of the number of tracks and batches — because every contribution query goes through the item's per-axis caches), so EVERY style tree with at most b children per node evaluates a node at depth k at most (11·b)^k times (EvalGrid.leaf_calls_le_pow_all_trees, unconditional); block: its call inputs do depend on its own input (so chain_const's hypothesis fails for block — consistent with the measured growth). The property's global bound 64 × nodes and its chain clause are NOT theorems: on the real code the random mixes stay far below the bound (max 27.9 calls per node) but single-child chains violate both clauses (known findings: linear growth 4d+1 for a flex-row chain with a wrapping leaf; exponential growth for block/flex-column/grid cycles).",
     "level_note": 'partial: the quantitative clauses are sampled (measure-call and body-evaluation counters through the trace hook; a query budget stops exponential passes) and two of them are genuinely violated by the unchanged code (known findings). Axioms: propext, Classical.choice, Quot.sound.',
     "technique": 'Lean 4 cost-semantics theorems on the evaluator + measured call counts on chains (depth ≤ 64) and random mixes (≤ 300 nodes)',
     "undischarged": ['64 × nodes: not a theorem; chain clause: false of the code (known findings c16-chain-growth, c16-measure-blowup)'],
 }
 
 PROPS["C17"] = {
-    "modules": C17_MODULES + EVALFLEX_MODULES, "theorems": C17_THEOREMS + EVALFLEX_C01,  # PLACEHOLDER — C17's theorems (dispatch_eq, drivers_eq) to be added
+    "modules": C17_MODULES + EVALFLEX_MODULES + EVALGRID_MODULES, "theorems": C17_THEOREMS + EVALFLEX_C01 + EVALGRID_C01,  # PLACEHOLDER — C17's theorems (dispatch_eq, drivers_eq) to be added
     "harness": "C17", "driver": "C17", "monitor": False, "extra_ties": [("EVAL", "EVAL"), ("FLEX", "FLEX"), ("GRID", "GRID")], "extra_tie_cases": 4000, "harness_timeout": 900,
     "rule": "12 000 generated trees (full observation lines for the first 4000 and for every differing case) (60% up to 12 nodes / depth 3, 40% up to 40 nodes / depth 6; flex/grid/block/none, Fixed/Wrap/no measure "
             "data), random available space, rounding on or off. Each is laid out by TaffyTree::compute_layout_with_measure and by an "
@@ -753,7 +775,7 @@ PROPS["C17"] = {
     "assumptions": ["same pure measure function on both sides; calc() resolves to 0 on both sides"],
     "undischarged": ["all of C17's theorems (to be added by the coordinator)"],
     "level_text": "Theorems: the dispatch arms extracted from TaffyView::compute_child_layout select, for every display mode and child count, the function the documentation names (dispatch_eq), hidden run mode is handled first, the measure function is reachable only for childless box-generating nodes, and the evaluator with TaffyTree's dispatch IS the evaluator with the documented dispatch (drivers_eq) for every cache implementation and algorithm bundle; with an exact memo the outputs equal the cache-free outputs (memo_eq_cachefree_output). On the real code an independent Vec-backed tree implementing the public traits as the documentation prescribes is laid out next to TaffyTree (rounding on and off, real and exact keys): 0 differences; exact memo vs cache-free: equal except the stale-layout finding; real cache vs exact memo differs on 12 % of random trees (known finding: lossy key).",
-    "level_note": 'partial: equality of stored layouts between the real cache and the exact memo is false (known finding c17-lossy-cache-key). Axioms: propext, Classical.choice, Quot.sound.',
+    "level_note": 'partial: equality of stored layouts between the real cache and the exact memo is false (known finding c17-lossy-cache-key). Exact memo vs cache-free: the stored layouts agree after a quiet PerformLayout pass on EVERY style tree whose grid containers cannot panic (EvalGrid.single_pass_layouts_quiet_all_trees; PLCovers proved for block, flexbox and the non-panicking runs of grid). Axioms: propext, Classical.choice, Quot.sound.',
     "technique": 'extracted dispatch table + Lean equality of drivers + differential run against an independent implementation of the public traits',
     "undischarged": ['layout equality real cache vs exact memo: false (known findings)'],
 }
@@ -816,7 +838,7 @@ PROPS["C12"] = {
 }
 
 PROPS["C05"] = {
-    "modules": C05_EVAL_MODULES + C17_MODULES + EVALBLOCK_MODULES + EVALFLEX_MODULES, "theorems": C05_EVAL_THEOREMS + ["C17.dispatch_eq"] + EVALBLOCK_C05 + EVALFLEX_C05,
+    "modules": C05_EVAL_MODULES + C17_MODULES + EVALBLOCK_MODULES + EVALFLEX_MODULES + EVALGRID_MODULES, "theorems": C05_EVAL_THEOREMS + ["C17.dispatch_eq"] + EVALBLOCK_C05 + EVALFLEX_C05 + EVALGRID_C05,
     "harness": "C05", "driver": "C05", "monitor": False, "extra_ties": [("EVAL", "EVAL"), ("FLEX", "FLEX"), ("GRID", "GRID")], "extra_tie_cases": 4000,
     "rule": "style trees of 2-12 nodes as for C04, with 1-3 extra non-root nodes forced to display:none (keeping their subtrees, "
             "half of them with explicit grid-row/grid-column lines -5..6 / spans, some absolute, some with sizes and margins); for "
@@ -830,9 +852,9 @@ PROPS["C05"] = {
     "assumptions": ["a display:none root is outside the quantifier: compute_root_layout writes the root's style padding/border/"
                     "margin into its layout (size and location stay 0); see the note in the evidence"],
     "level_text": "Theorems over the tree-level evaluator (Model/Eval.lean: compute_child_layout + compute_cached_layout + compute_hidden_layout, any cache implementation, dispatch arms extracted from the source), for every tree, state, input and fuel: hiddenLayout zeroes every layout and clears every cache of the subtree; the invariant 'every display:none child of a box-generating node has an all-zero own layout and everything strictly below a display:none node is all-zero' holds on a fresh tree and is preserved by every evaluation provided the container algorithms only write zero layouts to hidden children (AlgsPHZ); and if the container algorithms' programs do not depend on a hidden child's style beyond display:none (HiddenBlind), replacing a hidden subtree by any other hidden subtree (a bare leaf) yields equal outputs and equal layouts/caches everywhere outside hidden subtrees. On the real code both clauses are checked on generated tree pairs (flex, grid, block parents; hidden nodes with grid lines).",
-    "level_note": 'partial: AlgsPHZ and HiddenBlind are named hypotheses about the container algorithms; they are PROVED for the block model (EvalBlock.block_PHZ, block_HiddenBlind) and for the flexbox model (EvalFlex.flex_PHZ, flex_HiddenBlind; Model/Flex.lean, tied by the FLEX correspondence), so on trees whose containers are all block or flexbox (EvalFlex.NoGrid) both clauses hold unconditionally (…_block_flex_leaf_trees theorems); for grid they remain hypotheses validated by the tree-pair run on the implementation. Trusted: Lean kernel; Eval model (tied by the EVAL correspondence on leaf/block trees); extractor for the dispatch arms. Axioms: propext, Classical.choice, Quot.sound.',
+    "level_note": 'proved for the modelled algorithms: AlgsPHZ and HiddenBlind are named hypotheses about the container algorithms; they are PROVED for the block model (EvalBlock.block_PHZ, block_HiddenBlind) and for the flexbox model (EvalFlex.flex_PHZ, flex_HiddenBlind; Model/Flex.lean, tied by the FLEX correspondence), and for the grid model (EvalGrid.grid_PHZ, grid_HiddenBlind; Model/Grid.lean with placement, track sizing and grid items, tied by the GRID correspondence: get_child_styles_iter filters display:none children before the size estimate and placement, GridItem::new and align_and_position_item read the styles of placed children only, the hidden/absolute loop tests display first), so both clauses hold UNCONDITIONALLY for every style tree (EvalGrid.hidden_zero_all_trees, hidden_invisible_all_trees, …_pass, …_replace). Trusted: Lean kernel; Eval model (tied by the EVAL correspondence on block+flex+grid trees); extractor for the dispatch arms. Axioms: propext, Classical.choice, Quot.sound.',
     "technique": 'Lean 4 simulation proof over the interaction-program evaluator + metamorphic tree pairs on the real TaffyTree',
-    "undischarged": ['AlgsPHZ / HiddenBlind for grid (unmodelled as a program): sampled by the tree pairs only'],
+    "undischarged": [],
 }
 
 PROPS["C06"] = {
